@@ -253,6 +253,7 @@ def main():
         trusted_base=trusted,
         units=[u.info for u in asm.units],
         functions_under_contract=unit_names,
+        assumed_callee_contracts=asm.stubs,
         rules_applied=asm.rules.counts,
         literals=asm.rules.lits,
         mechanical_scan=scan,
